@@ -23,6 +23,8 @@ RULE = (
     "same dtype), every other parent is absent; serial and parallel trees identical; a logging PyramidIO gives the boundary history (each "
     "parent written at most once, children read after their own write). 'history' cases re-cascade after adding/changing/removing "
     "leaves and compare with a fresh cascade. jpg is compared at the write_image boundary. Non-trivial: >= 2 parents produced; distinct by spec."
+    ' Also: re-cascades after a leaf was removed / replaced by an older-dated file; one parent tile whose storing fails with ENOSPC (so'
+    'urce-free failpoint in Image.save): the cascade must raise or the tree must be right.'
 )
 ASSUMPTIONS = [
     "a fully transparent pixel is undefined: its hidden colour channels do not take part in the mean (undefined = 0,0,0,0)",
